@@ -259,3 +259,292 @@ vecp_t verif_vec_variadic(nm_size_t a, nm_size_t b, nm_size_t c3)
     vecp_t p = { v.size(), v[0], v[1], v[2] };
     return p;
 }
+
+// ---------------------------------------------------------------- maybe<T> / either<T,int> for a NON-TRIVIAL element type
+// (the placement-new specialisations of maybe.hpp / either.hpp).  trk_t is a small element type with user-provided
+// constructors / destructor / copy assignment that counts, through namespace-scope counters,
+//   trk_live : objects constructed and not yet destroyed          (a leak or a missing destruction shows as a surplus)
+//   trk_bad  : operations on an object that is NOT alive           (assignment to / copy from / destruction of raw or
+//                                                                    already destroyed storage; a double destruction)
+// An object is alive while state == TRK_ALIVE (set by every constructor, cleared by the destructor).
+long trk_live = 0;
+long trk_bad = 0;
+#define TRK_ALIVE 0x600DF00DUL
+struct trk_t
+{
+    nm_size_t val;
+    nm_size_t state;
+    trk_t() : val(0), state(TRK_ALIVE) { trk_live++; }
+    trk_t(nm_size_t v) : val(v), state(TRK_ALIVE) { trk_live++; }
+    trk_t(const trk_t& o) : val(o.val), state(TRK_ALIVE) { if (o.state != TRK_ALIVE) { trk_bad++; } trk_live++; }
+    trk_t& operator=(const trk_t& o)
+    {
+        if (state != TRK_ALIVE) { trk_bad++; }
+        if (o.state != TRK_ALIVE) { trk_bad++; }
+        val = o.val;
+        return *this;
+    }
+    ~trk_t()
+    {
+        if (state != TRK_ALIVE) { trk_bad++; } else { trk_live--; }
+        state = 0;
+    }
+};
+using mbt_t = nmtools::utl::maybe<trk_t>;
+// observation of one (or two) maybe objects together with the counters at that moment
+// (all members are 8 bytes wide and `tv_plain` marks the struct as padding-free plain data, so that translation validation compares
+//  the observation of the real code with that of the generated C bytewise, see engine/tv_eq.hpp)
+struct mbt_probe_t { nm_size_t has; nm_size_t val; long live; long bad; nm_size_t has2; nm_size_t val2; nm_size_t tv_plain; };
+using mbtp_t = mbt_probe_t;
+static void trk_reset() { trk_live = 0; trk_bad = 0; }
+// the payload storage of an EMPTY maybe is raw memory; give it a definite content (any value `junk`), so that what the code
+// under test does with raw storage does not depend on what happens to be on the stack
+static void mbt_scribble(mbt_t& m, nm_size_t junk) { trk_t& raw = m.value(); raw.val = junk; raw.state = junk; }
+static mbtp_t mbt_probe(const mbt_t& m, const mbt_t& m2)
+{
+    mbtp_t p = { m.has_value() ? (nm_size_t)1 : (nm_size_t)0, m.has_value() ? (*m).val : (nm_size_t)0, trk_live, trk_bad,
+                 m2.has_value() ? (nm_size_t)1 : (nm_size_t)0, m2.has_value() ? (*m2).val : (nm_size_t)0, 0 };
+    return p;
+}
+static mbtp_t mbt_assign_probe(mbt_t& dst, const mbt_t& src, const trk_t& tb)
+{
+    dst = src;
+    mbtp_t p = mbt_probe(dst, src);
+    return p;
+}
+
+mbtp_t verif_mbt_default()
+{
+    trk_reset();
+    mbt_t m;
+    return mbt_probe(m, m);
+}
+mbtp_t verif_mbt_nothing()
+{
+    trk_reset();
+    mbt_t m(utl::nothing);
+    return mbt_probe(m, m);
+}
+mbtp_t verif_mbt_value(nm_size_t x)
+{
+    trk_reset();
+    trk_t t(x);
+    mbt_t m(t);
+    t.val = x + 1;                       // the maybe holds its own copy
+    return mbt_probe(m, m);
+}
+// copy construction from a valued / an empty maybe; the copy is independent of its source
+mbtp_t verif_mbt_copy(bool has, nm_size_t x, nm_size_t junk)
+{
+    trk_reset();
+    trk_t t(x);
+    mbtp_t p;
+    if (has) {
+        mbt_t src(t);
+        mbt_t c(src);
+        (*src).val = x + 1;
+        p = mbt_probe(c, src);
+    } else {
+        mbt_t src;
+        mbt_scribble(src, junk);
+        mbt_t c(src);
+        p = mbt_probe(c, src);
+    }
+    return p;
+}
+// maybe-to-maybe copy assignment, with and without a value on each side
+mbtp_t verif_mbt_assign(bool dst_has, nm_size_t a, bool src_has, nm_size_t b, nm_size_t junk)
+{
+    trk_reset();
+    trk_t ta(a);
+    trk_t tb(b);
+    mbtp_t p;
+    if (dst_has) {
+        mbt_t dst(ta);
+        if (src_has) { mbt_t src(tb); p = mbt_assign_probe(dst, src, tb); }
+        else         { mbt_t src; mbt_scribble(src, junk); p = mbt_assign_probe(dst, src, tb); }
+    } else {
+        mbt_t dst;
+        mbt_scribble(dst, junk);
+        if (src_has) { mbt_t src(tb); p = mbt_assign_probe(dst, src, tb); }
+        else         { mbt_t src; mbt_scribble(src, junk); p = mbt_assign_probe(dst, src, tb); }
+    }
+    return p;
+}
+mbtp_t verif_mbt_self_assign(bool has, nm_size_t x, nm_size_t junk)
+{
+    trk_reset();
+    trk_t t(x);
+    mbtp_t p;
+    if (has) { mbt_t m(t); m = m; p = mbt_probe(m, m); }
+    else     { mbt_t m; mbt_scribble(m, junk); m = m; p = mbt_probe(m, m); }
+    return p;
+}
+// m = t  (value assignment)
+mbtp_t verif_mbt_assign_value(bool has, nm_size_t a, nm_size_t x, nm_size_t junk)
+{
+    trk_reset();
+    trk_t ta(a);
+    trk_t t(x);
+    mbtp_t p;
+    if (has) { mbt_t m(ta); m = t; t.val = x + 1; p = mbt_probe(m, m); }
+    else     { mbt_t m; mbt_scribble(m, junk); m = t; t.val = x + 1; p = mbt_probe(m, m); }
+    return p;
+}
+// m = nothing  (reset)
+mbtp_t verif_mbt_assign_nothing(bool has, nm_size_t a, nm_size_t junk)
+{
+    trk_reset();
+    trk_t ta(a);
+    mbtp_t p;
+    if (has) { mbt_t m(ta); m = utl::nothing; p = mbt_probe(m, m); }
+    else     { mbt_t m; mbt_scribble(m, junk); m = utl::nothing; p = mbt_probe(m, m); }
+    return p;
+}
+// write through operator* / read through value()
+mbtp_t verif_mbt_write(nm_size_t a, nm_size_t x)
+{
+    trk_reset();
+    trk_t ta(a);
+    mbt_t m(ta);
+    (*m).val = x;
+    const mbt_t& c = m;
+    mbtp_t p = { static_cast<bool>(c) ? (nm_size_t)1 : (nm_size_t)0, c.value().val, trk_live, trk_bad, c.has_value() ? (nm_size_t)1 : (nm_size_t)0, (*c).val, 0 };
+    return p;
+}
+// end of life: the counters AFTER the maybe went out of scope (std::optional destroys its payload)
+mbtp_t verif_mbt_scope(bool has, nm_size_t x, nm_size_t junk)
+{
+    trk_reset();
+    trk_t t(x);
+    if (has) { mbt_t m(t); mbt_t c(m); }
+    else     { mbt_t m; mbt_scribble(m, junk); mbt_t c(m); }
+    mbtp_t p = { 0, 0, trk_live, trk_bad, 0, 0, 0 };
+    return p;
+}
+
+// ---------------------------------------------------------------- maybe<utl::vector<size_t>>: the library's own heap container as payload
+// (pointer checks: use after free / double free / out of bounds; the payload is never destroyed by maybe -- known finding -- so
+//  only verif_mbv_scope runs under the leak check)
+using mbv_t = nmtools::utl::maybe<vec_t>;
+// value construction + copy construction: equal contents, independent of the source
+vecp_t verif_mbv_copy(nm_size_t n, nm_size_t i, nm_size_t x, nm_size_t y)
+{
+    vec_t v(n);
+    if (i < n) { v[i] = x; }
+    mbv_t m(v);
+    mbv_t c(m);
+    if (i < n) { (*m)[i] = y; }
+    vecp_t p = { (*c).size(), (i < n) ? (*c)[i] : x, (*m).size(), (i < n) ? (*m)[i] : y };
+    return p;
+}
+// valued <- valued copy assignment between payloads of different sizes
+vecp_t verif_mbv_assign(nm_size_t n, nm_size_t m, nm_size_t i, nm_size_t x, nm_size_t y)
+{
+    vec_t v(n);
+    vec_t w(m);
+    if (i < n) { v[i] = x; }
+    mbv_t a(w);
+    mbv_t b(v);
+    a = b;
+    if (i < n) { (*b)[i] = y; }
+    vecp_t p = { (*a).size(), (i < n) ? (*a)[i] : x, (*b).size(), (i < n) ? (*b)[i] : y };
+    return p;
+}
+// self-assignment of a valued maybe is harmless
+vecp_t verif_mbv_self_assign(nm_size_t n, nm_size_t i, nm_size_t x)
+{
+    vec_t v(n);
+    if (i < n) { v[i] = x; }
+    mbv_t a(v);
+    a = a;
+    vecp_t p = { (*a).size(), (i < n) ? (*a)[i] : x, 0, 0 };
+    return p;
+}
+// end of life of a valued maybe: std::optional releases the payload's heap block
+nm_size_t verif_mbv_scope(bool has, nm_size_t n)
+{
+    vec_t v(n);
+    if (has) { mbv_t m(v); }
+    return v.size();
+}
+
+// ---------------------------------------------------------------- either<trk_t,int>: non-trivial left alternative
+// (either.hpp specialisation with the user-provided copy constructor / empty destructor)
+using e2_t = nmtools::utl::either<trk_t,int>;
+struct e2_probe_t { long index; nm_size_t lval; long rval; long live; long bad; nm_size_t tv_plain; };
+using e2p_t = e2_probe_t;
+static e2p_t e2_probe(const e2_t& e)
+{
+    const trk_t* l = e.get_if<trk_t>();
+    const int* r = e.get_if<int>();
+    e2p_t p = { e.index(), l ? l->val : (nm_size_t)0, r ? (long)*r : 0L, trk_live, trk_bad, 0 };
+    return p;
+}
+static e2p_t e2_assign_probe(e2_t& dst, const e2_t& src) { dst = src; return e2_probe(dst); }
+e2p_t verif_e2_default() { trk_reset(); e2_t e; return e2_probe(e); }
+e2p_t verif_e2_left(nm_size_t x) { trk_reset(); trk_t t(x); e2_t e(t); t.val = x + 1; return e2_probe(e); }
+e2p_t verif_e2_right(int y) { trk_reset(); e2_t e(y); return e2_probe(e); }
+e2p_t verif_e2_copy(bool is_left, nm_size_t x, int y)
+{
+    trk_reset();
+    trk_t t(x);
+    e2p_t p;
+    if (is_left) { e2_t src(t); e2_t c(src); p = e2_probe(c); }
+    else         { e2_t src(y); e2_t c(src); p = e2_probe(c); }
+    return p;
+}
+e2p_t verif_e2_assign(bool dst_left, nm_size_t a, int y1, bool src_left, nm_size_t b, int y2)
+{
+    trk_reset();
+    trk_t ta(a);
+    trk_t tb(b);
+    e2p_t p;
+    if (dst_left) {
+        e2_t dst(ta);
+        if (src_left) { e2_t src(tb); p = e2_assign_probe(dst, src); }
+        else          { e2_t src(y2); p = e2_assign_probe(dst, src); }
+    } else {
+        e2_t dst(y1);
+        if (src_left) { e2_t src(tb); p = e2_assign_probe(dst, src); }
+        else          { e2_t src(y2); p = e2_assign_probe(dst, src); }
+    }
+    return p;
+}
+e2p_t verif_e2_self_assign(bool is_left, nm_size_t x, int y)
+{
+    trk_reset();
+    trk_t t(x);
+    e2p_t p;
+    if (is_left) { e2_t e(t); e = e; p = e2_probe(e); }
+    else         { e2_t e(y); e = e; p = e2_probe(e); }
+    return p;
+}
+e2p_t verif_e2_assign_left(bool is_left, nm_size_t a, int y, nm_size_t x)
+{
+    trk_reset();
+    trk_t ta(a);
+    trk_t t(x);
+    e2p_t p;
+    if (is_left) { e2_t e(ta); e = t; t.val = x + 1; p = e2_probe(e); }
+    else         { e2_t e(y);  e = t; t.val = x + 1; p = e2_probe(e); }
+    return p;
+}
+e2p_t verif_e2_assign_right(bool is_left, nm_size_t a, int y, int y2)
+{
+    trk_reset();
+    trk_t ta(a);
+    e2p_t p;
+    if (is_left) { e2_t e(ta); e = y2; p = e2_probe(e); }
+    else         { e2_t e(y);  e = y2; p = e2_probe(e); }
+    return p;
+}
+e2p_t verif_e2_scope(bool is_left, nm_size_t x, int y)
+{
+    trk_reset();
+    trk_t t(x);
+    if (is_left) { e2_t e(t); }
+    else         { e2_t e(y); }
+    e2p_t p = { 0, 0, 0, trk_live, trk_bad, 0 };
+    return p;
+}
